@@ -41,6 +41,7 @@ type c02Scenario struct {
 	Size  int      `json:"size"`
 	Ro    []bool   `json:"ro"`
 	Prior []string `json:"prior"` // per configured volume: absent, absentdir, intact, corrupt
+	Full  []bool   `json:"full"`  // per configured volume (nil = none): a fresh <root>/full marker, IsFull() answers true
 }
 
 type c02Child struct {
@@ -131,6 +132,9 @@ func c02Plant(dirs []string, sc c02Scenario, data []byte, hash string) {
 	for i, d := range dirs {
 		pdir := filepath.Join(d, hash[:3])
 		p := filepath.Join(pdir, hash)
+		if sc.Full != nil && sc.Full[i] {
+			os.Symlink(fmt.Sprint(time.Now().Unix()), filepath.Join(d, "full"))
+		}
 		switch sc.Prior[i] {
 		case "absentdir":
 			os.MkdirAll(pdir, 0755)
@@ -175,7 +179,11 @@ func c02Disk(dirs []string, ro []bool, data []byte, hash string) ([]string, []st
 				}
 			}
 		}
-		out = append(out, fmt.Sprintf("D %s %s %s %s", gBool(ro[i]), gBool(dirExists), blk, tmp))
+		cons := "D"
+		if _, err := os.Lstat(filepath.Join(d, "full")); err == nil {
+			cons, ht = "DF", ht+" [full]"
+		}
+		out = append(out, fmt.Sprintf("%s %s %s %s %s", cons, gBool(ro[i]), gBool(dirExists), blk, tmp))
 		human = append(human, hb+ht)
 	}
 	return out, human
@@ -297,6 +305,15 @@ func TestVerifC02(t *testing.T) {
 		}
 		scs = append(scs, c02Scenario{Size: size, Ro: []bool{false, true}, Prior: []string{"absent", "intact"}})
 		scs = append(scs, c02Scenario{Size: size, Ro: []bool{true, false}, Prior: []string{"corrupt", "corrupt"}})
+		// full volumes (the round-robin choice answers FullError: PutBlock's fallback loop over all writable
+		// volumes; which of two volumes is the round-robin choice depends on the mount order of the process)
+		scs = append(scs, c02Scenario{Size: size, Ro: []bool{false}, Prior: []string{"absent"}, Full: []bool{true}})
+		scs = append(scs, c02Scenario{Size: size, Ro: []bool{false, false}, Prior: []string{"absent", "absent"}, Full: []bool{true, false}})
+		scs = append(scs, c02Scenario{Size: size, Ro: []bool{false, false}, Prior: []string{"absent", "absentdir"}, Full: []bool{false, true}})
+		scs = append(scs, c02Scenario{Size: size, Ro: []bool{false, false}, Prior: []string{"absent", "absent"}, Full: []bool{true, true}})
+		scs = append(scs, c02Scenario{Size: size, Ro: []bool{false, false}, Prior: []string{"corrupt", "absent"}, Full: []bool{true, false}})
+		scs = append(scs, c02Scenario{Size: size, Ro: []bool{false, false}, Prior: []string{"absent", "intact"}, Full: []bool{false, true}})
+		scs = append(scs, c02Scenario{Size: size, Ro: []bool{false, true}, Prior: []string{"absent", "absent"}, Full: []bool{true, false}})
 	}
 	type job struct {
 		idx     int
